@@ -4,11 +4,13 @@
    Reading guide.  `denote_json L s d` (JsonDoc.v) is the declarative meaning of a JSON-CAS document; `save_json` /
    `load_json` (Json.v) model cassis/json.py; `canon_json s c` is "the same CAS" (sofa data, view membership, every
    structure under its id with every value, references as ids).  L is the lexical layer the format borrows (UTF-8 for
-   sofa text, base64 for byte arrays); `lex_ok L` is its contract.  Premises are booleans evaluated on every generated
-   case (CorrC02.premises): wf_jsonb (distinct view names and sofa ids, encodable texts, every structure found is typed,
-   has plain distinct feature names, arrays hold lists, annotations carry a sofa of this CAS and offsets inside its
-   text) and stableb (a second traversal finds the same structures — a ReachProofs fact not re-proved here). *)
-From Cassis Require Import Base Heap Schema Canon Reach JsonDoc Json JsonProofs CorrC02.
+   sofa text, base64 for byte arrays); `lex_ok L` is its contract, proved for the concrete codecs (C02_std_lex_ok).
+   Premises are booleans evaluated on every generated case (CorrC02.premises): wf_jsonb (distinct view names and sofa ids,
+   encodable texts, every structure found is typed, has plain distinct feature names, arrays hold lists, annotations carry
+   a sofa of this CAS and offsets inside its text), 0 < c_next_id (the id generator hands out positive ids; replaces the
+   former premise stableb, now a theorem: ReachSpec.find_all_fs_stable), doc_ok_json (the written document is
+   well-formed: a boolean on the document alone). *)
+From Cassis Require Import Base Heap Schema Canon Reach JsonDoc Json JsonProofs JsonProofs2 JsonLoadProofs JsonLex CorrC02.
 Open Scope Z_scope.
 
 (* ---- per-kind: decoding what the writer encodes gives the canonical value ---- *)
@@ -110,15 +112,27 @@ Print Assumptions C02_old_docann_skip_refuted.
    Full statements (DESIGN.md section 5, C02):
      json_roundtrip     : save_json L s mode c = Ok (d, c') -> wf.. -> load_json L s d = canon_json s c'
      json_resave_equal  : the document written from the loaded CAS equals d as a JSON value modulo member order
-   What is proved: the round trip for every document on which the reader model agrees with the denotation (that
-   agreement — C05's load_json_is_denotation under doc_ok_json — is evaluated in Coq on every generated document, not
-   proved here), and equality of the denotations of the two documents; JSON-value equality of the re-serialisation is
-   established per case by the correspondence (model document = implementation document, both saves) and the oracle. *)
-Theorem C02_json_roundtrip_partial : forall L s mode c d c',
+   What is proved: the reader mechanism computes the declarative reading on every well-formed document
+   (C02_load_json_is_denotation, all presentations, all orders: no assumption about the reader is left), hence the round
+   trip for every written document that is well-formed.  doc_ok_json of the written document is proved for its closed part
+   (PropsJson: C04_json_ids_distinct, C04_json_refs_resolve) and evaluated in Coq for the rest (value kinds, key legality)
+   on every document cassis writes — hence still _partial.  For re-serialisation: equality of the denotations of the two
+   documents; JSON-value equality is established per case by the correspondence and the oracle. *)
+Theorem C02_load_json_is_denotation : forall L s d cc,
+  doc_ok_json L s d = true -> denote_json L s d = Ok cc -> load_json L s d = Ok (with_initial_view cc).
+Proof. exact load_json_is_denotation. Qed.
+Print Assumptions C02_load_json_is_denotation.
+
+Theorem C02_json_roundtrip_partial : forall L s mode c d c' cc,
   lex_ok L -> save_json L s mode c = Ok (d, c') -> wf_jsonb s c' = true -> 0 < c_next_id c ->
-  load_json L s d = denote_json L s d -> load_json L s d = canon_json s c'.
-Proof. exact json_roundtrip_given_reader. Qed.
+  doc_ok_json L s d = true -> initial_view_in c' = true -> canon_json s c' = Ok cc ->
+  load_json L s d = Ok cc.
+Proof. exact json_roundtrip. Qed.
 Print Assumptions C02_json_roundtrip_partial.
+
+Theorem C02_std_lex_ok : lex_ok std_lex.
+Proof. exact std_lex_ok. Qed.
+Print Assumptions C02_std_lex_ok.
 
 Theorem C02_json_resave_equal_partial : forall L s m1 m2 c1 d1 c1' c2 d2 c2',
   lex_ok L ->
@@ -159,7 +173,7 @@ Example C02_premises_hold :
   let s := full_schema (c_user ex_case) in
   match save_json std_lex s MMinimal (c_cas ex_case) with
   | Ok (d, c') =>
-      wf_jsonb s c' = true /\ 0 < c_next_id (c_cas ex_case) /\ ids_distinctb s c' = true /\
+      wf_jsonb s c' = true /\ 0 < c_next_id (c_cas ex_case) /\ ids_distinctb s c' = true /\ initial_view_in c' = true /\
       schema_okb s = true /\ doc_ok_json std_lex s d = true /\
       denote_json std_lex s d = canon_json s c' /\ load_json std_lex s d = canon_json s c' /\
       (3 <= List.length (c_views c'))%nat /\ (5 <= List.length (c_heap c'))%nat
